@@ -38,8 +38,12 @@ FIXED = [
  ("C14", "b42e0b1", "QTomography.reset_seed(0) was ignored (`if seed:`): the explicit seed 0 re-seeded with the experiment's old seed_data (found by the reset_seed oracle added for seeded C14-16)"),
 ]
 findings = []
-for f in sorted(glob.glob(os.path.join(HERE, "known_findings.d", "*.json"))):
-    findings += json.load(open(f))["findings"]
+_staged = sorted(glob.glob(os.path.join(HERE, "known_findings.d", "*.json")))
+if _staged:          # staging directory used while the checks were being built (one file per property)
+    for f in _staged:
+        findings += json.load(open(f))["findings"]
+else:                # consolidated: known_findings.json itself is the source; only the FIXED list above is re-written
+    findings = json.load(open(os.path.join(HERE, "known_findings.json")))["findings"]
 findings = [x for x in findings if x.get("status") == "open"]
 out = {
  "_comment": "Genuine defects of tknrsgym/quara that are recorded rather than repaired (status open), identified by the signature the check "
